@@ -170,3 +170,10 @@ Theorem C01_factors_are_the_back_ends : List.length T3.dec_factor_writes = 20%na
 Proof. exact (conj (f_equal (@List.length _) C15_opts.dec_factor_writes_known) (conj (f_equal (@List.length _) C15_opts.svd_factor_writes_known)
   (f_equal (forallb _) C15_opts.dec_factor_writes_known))). Qed.
 Print Assumptions C01_factors_are_the_back_ends.
+
+(* the functions of this property whose Gallina counterpart is hand-written (or that only the oracles reach) still read, statement by statement, as they did when
+   the model was last validated against them (Gen/T9text.v regenerated from the source on every run; Proofs/Text_C01.v holds the validated text) *)
+From XV Require Gen.T9text Proofs.Text_C01.
+Theorem C01_hand_modelled_functions_read_as_validated : Text_C01.all_frozen.
+Proof. exact Text_C01.all_frozen_holds. Qed.
+Print Assumptions C01_hand_modelled_functions_read_as_validated.
